@@ -80,7 +80,7 @@ def obligations(tier, seed):
     obs = [
         MirOb("c11_decompose", "decompose@src/duration/mod.rs", [In("d", "&Duration")], post_decompose,
               "decompose: sign, hours < 24, minutes < 60, seconds < 60, ms/us/ns < 1000 and weighted sum == |d| exactly, for every duration",
-              "decompose", ret_shape="tuple8", min_paths=3, bounds="full width: every canonical duration (2^80), ns resolution; loop-free",
+              "decompose", ret_shape="tuple8", min_paths=3, probe_witness=True, bounds="full width: every canonical duration (2^80), ns resolution; loop-free",
               functions=["Duration::decompose", "Duration::abs", "Duration::signum", "impl Neg for Duration"]),
         MirOb("c11_subdivision", "subdivision@src/duration/mod.rs", [In("d", "&Duration"), In("u", "Unit")], post_subdivision,
               "subdivision(unit) = that component times the unit for ns..day, None for week and century", "subdivision",
